@@ -7,13 +7,9 @@
 (* accepted iff the row equals the textbook parton-model row computed HERE *)
 (* from the cell's parameters.                                             *)
 (***************************************************************************)
-EXTENDS Theorems, Json, IOUtils
+EXTENDS Lattice, Json, IOUtils
 
 TraceLog == ndJsonDeserialize(IOEnv.TRACE_FILE)
-CkmOf(name) ==
-  CASE name = "generic" -> << <<R(4, 5), R(1, 6), R(1, 100)>>, <<R(1, 7), R(3, 4), R(1, 20)>>, <<R(1, 50), R(1, 25), R(9, 10)>> >>
-    [] name = "unitary" -> << <<R(1, 2), R(1, 3), R(1, 6)>>, <<R(1, 3), R(1, 2), R(1, 6)>>, <<R(1, 6), R(1, 6), R(2, 3)>> >>
-PidSeq == <<-6, -5, -4, -3, -2, -1, 21, 1, 2, 3, 4, 5, 6>>
 ZM(n) == [fns |-> "ZM-VFNS", nfff |-> 4, nfzm |-> n]
 CellOf(pt) ==
   MkCell([proc |-> pt.proc, proj |-> pt.proj, s2w |-> pt.s2w, r |-> pt.r, omd |-> pt.omd, pol |-> pt.pol, pos |-> 0],
